@@ -33,16 +33,19 @@ CLAIMED = {
    technique="Coq proof (invariant over op sequences) + correspondence via OCaml extraction"),
 
  "C01": dict(
-   category="translation_validation",
-   text="Executable Gallina model of the whole VCD value path (parse_body byte state machine, VcdEncoder, id_to_int/IdLookup, "
-        "SignalEncoder::add_vcd_change, write_n_state, blocks, Reader::load_signal, get_value_at, n_state_to_bit_string) is run, "
-        "extracted to OCaml, against the real loader on the same files; independently the meaning computed from the abstract history "
-        "is compared with what the implementation reports. Exhaustive sweeps over every byte as value character and every "
-        "(width, written length, leading character). Theorems proved so far are listed in Properties/C01.v (codec round trip); "
-        "the end-to-end refinement theorem C01_faithful is not closed, hence the level.",
-   design_ref="DESIGN.md section 6, C01",
-   note="Trusted: Coq kernel, extraction (ExtrOcamlBasic), OCaml driver incl. float_of_string as f64 parser and identity as LZ4, Rust harness, generators and the Python oracle computed from the abstract history. ",
-   technique="correspondence: Coq model extracted to OCaml vs real code + oracle from abstract history; partial Coq proofs (pack/unpack)"),
+   category="proof",
+   text="Coq theorem vcd_stream_transparent (Proofs/VcdStreamProofs.v, pinned in Properties/C01.v): for every VCD body, identifier "
+        "lookup, block capacity and compressor obeying the round-trip law, the single-threaded path (parse_body byte machine -> "
+        "VcdEncoder -> wavemem Encoder -> Reader::load_signal -> iter_changes) reports for a bit-vector variable of any width exactly "
+        "what the parser's events record: index into the accepted time table, least state kind, characters, equal neighbours once "
+        "(on top of storage_transparent, C04). Not covered by the theorem: that the byte machine's events are the tokens of the text "
+        "(properties of the machine are pinned under C15), reals, strings, the multi-threaded path (C03). Those, and the tie of the "
+        "model to vcd.rs/wavemem.rs, are decided by the correspondence run: the extracted model against the real loader on generated "
+        "files, plus the oracle computed from the abstract history; exhaustive sweeps over every byte as value character and every "
+        "(width, written length, leading character).",
+   design_ref="DESIGN.md section 6, C01 and section 12.5",
+   note="Trusted: Coq kernel; the hand-written model (Model/VcdBody.v, Model/WaveMem.v) is tied to the Rust code by the correspondence check (extraction ExtrOcamlBasic, OCaml driver incl. float_of_string as f64 parser and identity as LZ4, Rust harness, generators, Python oracle). Theorem premises: A-lz4 round trip; < 2^32 time-table entries; < 4 GiB per signal; block capacity <= 65536.",
+   technique="Coq proof (parser events -> store -> loaded signal) + extracted-model correspondence + oracle"),
  "C03": dict(
    category="translation_validation",
    text="The Gallina model of determine_thread_chunks / read_values / parse_body's hand-over rule / Encoder::append is run against the "
@@ -93,15 +96,19 @@ CLAIMED = {
    note="Trusted: Coq kernel, extraction (ExtrOcamlBasic), OCaml driver incl. float_of_string as f64 parser and identity as LZ4, Rust harness, generators and the Python oracle computed from the abstract history. ",
    technique="fault enumeration over all cut points; correspondence with the Coq model extracted to OCaml + prefix oracle"),
  "C08": dict(
-   category="translation_validation",
-   text="The Gallina model of HierarchyBuilder's pointer structure (scope stack with flattened entries and cached last children, "
-        "child/next links, duplicate-scope search, handle table) and of the Hierarchy navigation (items/vars/scopes chains, full_name, "
-        "lookup_scope, lookup_var_with_index, get_signal_tpe) is run, extracted to OCaml, against the real builder (hook) on every op "
-        "list of length <= 6 over a 6-symbol alphabet (55 986 lists, incl. unbalanced ones that must panic alike) and on random lists to "
-        "length 200; oracle: an independent rose-tree specification. builder_refines_tree is not yet proved in Coq, hence the level.",
-   design_ref="DESIGN.md section 6, C08",
-   note="Trusted: Coq kernel, extraction, OCaml driver, Rust harness, Python rose-tree specification. File front ends (VCD/FST/GHW) reach the builder through C09/C10/C11.",
-   technique="correspondence: Coq model extracted to OCaml vs real builder (exhaustive small scope) + rose-tree oracle"),
+   category="proof",
+   text="Coq theorem hierarchy_wellformed (Proofs/HierProofs.v, pinned in Properties/C08.v): for every balanced sequence of "
+        "HierarchyBuilder calls (add_scope with/without flatten, re-opening of same-named scopes, add_var, pop_scope) the arrays and "
+        "their child/next/parent links form a forest: items() and Scope::items() return children lists in which every variable and "
+        "scope occurs exactly once, parent links agree with the lists, parents precede children, sibling scopes have distinct names; "
+        "the scope stack's cached last children are exact (invariant hinv with add_var_inv, add_scope_inv, pop_scope_inv). Not covered "
+        "by the theorem: the pre-order walk function's fuel, full_name, lookup_*, the signal-reference table, unbalanced pops; these "
+        "and the tie to hierarchy.rs are decided by the correspondence run: the extracted model against the real builder (hook) on "
+        "every op list of length <= 6 over a 6-symbol alphabet (55 986 lists, incl. unbalanced ones that must panic alike) and random "
+        "lists to length 200; oracle: an independent rose-tree specification.",
+   design_ref="DESIGN.md section 6, C08 and section 12.5",
+   note="Trusted: Coq kernel; the hand-written model Model/Hierarchy.v is tied to hierarchy.rs by the correspondence check (extraction, OCaml driver, Rust harness, Python rose-tree specification). File front ends (VCD/FST/GHW) reach the builder through C09/C10/C11.",
+   technique="Coq proof (pointer-structure invariant of the builder) + extracted-model correspondence (exhaustive small scope) + rose-tree oracle"),
  "C16": dict(
    category="proof",
    text="The Gallina model of detect_file_format (is_vcd/read_command matcher, the dependency's FST block walk with its i64 seek "
